@@ -18,6 +18,22 @@ CLAIMED = {
     design_ref="DESIGN.md 4.4",
     note="Trusts the frozen grammar (cross-validated against the pinned "
          "tree) and that the node kinds in the alphabet are representative."),
+ "C16": dict(
+    engine="E2-history",
+    technique="deterministic simulation: seeded symbol-table operation "
+              "histories over nested scopes, refusals as faults, reference "
+              "model, ddmin-minimised replay",
+    text="Seeded exploration of bounded histories (<=30 ops) of the public "
+         "SymbolTable API over five nested real scopes and free-standing "
+         "tables with case-variant names, tags, imports and arguments; a "
+         "dict-based reference model judges uniqueness, innermost lookup, "
+         "freshness of generated names and merge post-conditions after every "
+         "step; any refused operation must leave every table's digest "
+         "unchanged. Sampling, not proof.",
+    design_ref="DESIGN.md 4.5",
+    note="Trusts the reference model's reading of scope_limit and of which "
+         "symbols merge may legitimately unify (same container / same import "
+         "/ both unresolved / both intrinsic)."),
 }
 
 NOT_APPLICABLE = {
